@@ -622,6 +622,19 @@ def TxModel.stable (m : TxModel) : Bool :=
 
 def Anno.stable (a : Anno) : Bool := a.txs.all fun kv => kv.2.stable
 
+/-! ## the round trip as one function, closure of the well-formedness predicates -/
+
+/-- `GtfIO.write(buf, a)` followed by `GenomicAnnotation().dump_gtf(buf)`: the reloaded
+annotation (composition of `writeGtf` and `parseGtf`; an exception of either is the result) -/
+def reload (a : Anno) : Except GErr Anno :=
+  match writeGtf a with
+  | .ok ls => parseGtf ls
+  | .error e => .error e
+
+/-- the three hypotheses of the round-trip theorems together: `wf ∧ ordered ∧ stable` (what
+`gtf_roundtrip_closed` proves of every reloaded annotation) -/
+def Anno.closed (a : Anno) : Bool := a.wf && a.ordered && a.stable
+
 /-! ## what the coordinate model of `Model/Coord.lean` reads from a transcript model -/
 
 def toStrand : GStrand → Option Strand
